@@ -34,6 +34,11 @@ pub(super) fn parse_number(s: &str) -> Result<Number, ParseError> {
         "A" => Ok(Number::AlternateBases),
         "R" => Ok(Number::ReferenceAlternateBases),
         "G" => Ok(Number::Samples),
+        "LA" => Ok(Number::LocalAlternateBases),
+        "LR" => Ok(Number::LocalReferenceAlternateBases),
+        "LG" => Ok(Number::LocalSamples),
+        "P" => Ok(Number::Ploidy),
+        "M" => Ok(Number::BaseModifications),
         "." => Ok(Number::Unknown),
         _ => s.parse().map(Number::Count).map_err(ParseError::Invalid),
     }
